@@ -1627,3 +1627,33 @@ VARIANTS['C09'] += [
         "        found = self.get_segment_index(timecode)\n        mod_segment, seg_start_tc, origin_time = found\n")],
       None),
 ]
+
+_TS_OLD = ("        if flags & TrackFragmentRunBox.sample_size_present:\n            rv['size'] = struct.unpack('>I', src.read(4))[0]\n"
+           "        else:\n            rv['size'] = tfhd.default_sample_size\n")
+for _p, _r in (('C04', 'R04.12'), ('C06', 'R06.13')):
+    VARIANTS[_p] += [
+        V('tfhd default size stored after the per-sample size was read',
+          [(MP4, _TS_OLD, "        if flags & TrackFragmentRunBox.sample_size_present:\n            rv['size'] = struct.unpack('>I', src.read(4))[0]\n"
+            "        if tfhd.default_sample_size:\n            rv['size'] = tfhd.default_sample_size\n")],
+          _r, 'TrackSample'),
+        V('neutral: tfhd default size stored first, per-sample size read over it',
+          [(MP4, _TS_OLD, "        rv['size'] = tfhd.default_sample_size\n        if flags & TrackFragmentRunBox.sample_size_present:\n"
+            "            rv['size'] = struct.unpack('>I', src.read(4))[0]\n")],
+          None),
+    ]
+
+BINPY = 'dashlive/utils/binary.py'
+VARIANTS['C04'] += [
+    V('hex auto-detection of Binary.from_kwargs also matches a bytes prefix',
+      [(BINPY, "            if encoding is None and (len(data) % 2) == 0 and data[:2] == '0x':\n",
+        "            if encoding is None and (len(data) % 2) == 0 and data[:2] in ('0x', b'0x'):\n")],
+      'R04.13', 'from_kwargs'),
+    V('Binary.from_kwargs treats every even-length payload without an encoding as hex',
+      [(BINPY, "            if encoding is None and (len(data) % 2) == 0 and data[:2] == '0x':\n",
+        "            if encoding is None and (len(data) % 2) == 0:\n")],
+      'R04.13', 'from_kwargs'),
+    V('neutral: hex auto-detection of Binary.from_kwargs applies to text only, said explicitly',
+      [(BINPY, "            if encoding is None and (len(data) % 2) == 0 and data[:2] == '0x':\n",
+        "            if encoding is None and isinstance(data, str) and (len(data) % 2) == 0 and data[:2] == '0x':\n")],
+      None),
+]
